@@ -28,7 +28,7 @@ func init() {
 	stdSpecs["unicode/utf8.RuneCount"] = specRuneCount
 	StdSpecDoc["unicode/utf8.RuneCount"] = "utf8.RuneCount(b): abstract function runeCount(heap,b) with 0<=r<=len(b)"
 	stdSpecs["encoding/binary.Uvarint"] = specUvarint
-	StdSpecDoc["encoding/binary.Uvarint"] = "binary.Uvarint(buf): n in [-10,10], n<=len(buf); n>0 => value in uint64 range, n<=len(buf); n==0 iff buffer too small (incl. empty)"
+	StdSpecDoc["encoding/binary.Uvarint"] = "binary.Uvarint(buf): the returned length n is defined exactly from the bytes (first byte < 0x80 among the first ten: n = index+1, or -10 for an overflowing tenth byte; none: -11 if len > 10, else 0); the value is an arbitrary uint64, 0 when n <= 0"
 	stdSpecs["slices.Insert"] = nil
 	delete(stdSpecs, "slices.Insert")
 	stdSpecs["log.Panicf"] = specNoReturn
@@ -160,7 +160,20 @@ func specUvarint(f *frame, callee *ssa.Function, args []Val, in string, st *Stat
 	v := vc.fresh(f.prefix+"uvarint_v", "Int")
 	n := vc.fresh(f.prefix+"uvarint_n", "Int")
 	l := App("sl.len", buf.T)
-	vc.assume(in, And(RangeOf(types.Typ[types.Uint64], v), App("<=", "(- 10)", n), App("<=", n, "10"), App("<=", n, l), App("<=", App("-", n), l)))
+	// exact byte-level definition of the returned length (from the library
+	// source): k = first index <= 9 with buf[k] < 0x80; n = k+1 (or -10 when
+	// k == 9 and buf[9] > 1); no such k: -11 when len > 10, else 0.
+	bk := func(k int) string { return App("select", st.H["Int"], App("at_", buf.T, fmt.Sprint(k))) }
+	e := Ite(App(">", l, "10"), "(- 11)", "0")
+	for k := 9; k >= 0; k-- {
+		res := fmt.Sprint(k + 1)
+		if k == 9 {
+			res = Ite(App(">", bk(9), "1"), "(- 10)", "10")
+		}
+		e = Ite(App(">=", fmt.Sprint(k), l), "0", Ite(App("<", bk(k), "128"), res, e))
+	}
+	vc.assume(in, Eq(n, e))
+	vc.assume(in, And(RangeOf(types.Typ[types.Uint64], v), App("<=", "(- 11)", n), App("<=", n, "10"), App("<=", n, l), App("<=", App("-", n), l)))
 	vc.assume(in, Implies(Eq(l, "0"), Eq(n, "0")))
 	vc.assume(in, Implies(App("<=", n, "0"), Eq(v, "0")))
 	tup := callee.Signature.Results()
